@@ -579,7 +579,7 @@ T_SPECS = [
 
 def _scenarios(rng, tier):
     scen = []
-    n_hist = {"quick": 1, "thorough": 8}[tier]
+    n_hist = {"quick": 1, "thorough": 6}[tier]
     subjects = []
     for s in STRUCTS_2D + STRUCTS_3D:
         for _ in range(n_hist):
